@@ -887,8 +887,15 @@ def check_C12(tier, seed):
                 src["c" + name] = open(f, errors="replace").read()
             except OSError:
                 pass
+        # hand-written syntax fixtures (harness/fixtures): lexical spellings and constructs the generated modules never
+        # use (character tuples / quadruples, value definitions, COMPONENTS OF, WITH COMPONENTS, extension groups, ...)
+        fixtures = []
+        for f in sorted(glob.glob(os.path.join(lib.VERIF, "harness", "fixtures", "*.asn1"))):
+            k = "Z" + re.sub(r"[^A-Za-z0-9]", "", os.path.basename(f)[:-5])
+            src[k] = open(f).read()
+            fixtures.append(k)
         # the same-code clause is claimed over generated, non-parameterized modules only
-        plain = [k for k in ("VE", "VA", "VI", "VC", "VX1", "VX2", "VX3") if k in src]
+        plain = [k for k in ("VE", "VA", "VI", "VC", "VX1", "VX2", "VX3", "VO", "VP") if k in src] + fixtures
         singles = sorted(src)
         groups = [["VX1", "VX2"], ["VX1", "VX2", "VX3"], ["VE", "VC"], ["VA", "VC", "VX3"]]
         q = lambda xs: "{%s}" % ", ".join('"%s"' % x for x in xs)
@@ -1299,6 +1306,17 @@ def check_C20(tier, seed):
 C10_OPTIONS = ["-fcompound-names", "-fwide-types", "-findirect-choice", "-fno-constraints", "-no-gen-PER", "-no-gen-OER", "-fincludes-quoted"]
 
 
+class TextModule:
+    """a hand-written ASN.1 module (harness/fixtures) behind the interface build_module() needs"""
+    def __init__(self, name, text):
+        import re
+        self.name, self._text = name, text
+        self.mod = {"name": name, "tagging": "?", "defs": [{"n": n} for n in re.findall(r"^([A-Z][A-Za-z0-9-]*)\s*::=", text, re.M)]}
+
+    def text(self):
+        return self._text
+
+
 def check_C10(tier, seed):
     import subprocess
     from concurrent.futures import ThreadPoolExecutor
@@ -1311,6 +1329,10 @@ def check_C10(tier, seed):
     for m in lib.tlc_payload(out, "MOD"):
         if m["name"] in (("VE", "VA", "VI", "VC", "VO", "VP", "VQ") if tier == "thorough" else ("VE", "VA", "VC", "VO")):
             mods[m["name"]] = Module(m)
+    import glob
+    for f in sorted(glob.glob(os.path.join(lib.VERIF, "harness", "fixtures", "*.asn1"))):
+        k = "Z" + "".join(c for c in os.path.basename(f)[:-5] if c.isalnum())
+        mods[k] = TextModule(k, open(f).read())
     _, legal, st2 = lib.generate("MC_Legal", ["MaxComps = 2", "Rich = TRUE"], ["Export"], workers=4)
     res.states += st2["distinct"]
     res.transitions += st2["states"]
